@@ -883,6 +883,9 @@ func (l *List) IIrApply(sta funcGen.Stack[Value]) (*List, error) {
 			return nil, err
 		}
 		function, err := funcFromMap(m, "filter", 3)
+		if err != nil {
+			return nil, err
+		}
 		return NewListFromSizedIterable(func(st funcGen.Stack[Value]) iterator.Producer[Value] {
 			return iterator.IirMap[Value, Value](l.iterable(st),
 				func(item Value) (Value, error) {
